@@ -17,7 +17,8 @@ RULE = ('An explicit table of public callables that take array-like arguments (f
         'that is neither in the table nor in the reasoned exemption list is a harness error). Per case a data bundle is drawn '
         '(PRNG seeded by a Hypothesis integer; N in 2..6 rows; quaternions NOT normalised with norms 10**U(-1,1); angles in degrees '
         'where a deg flag exists; acc/mag of arbitrary scale; weights not summing to 1; float64 C-contiguous arrays and views). Every '
-        'table entry is called with fresh copies. Oracle: the bytes of every ndarray argument (also nested in tuples/lists) are '
+        'table entry is called with fresh copies; for constructor-then-method entries (UKF(P=).update, EKF(P=).update, Mahony(b0=).update*, '
+        '<Estimator>(weights=).estimate, ...) the arrays given to the constructor are watched during the later method call too. Oracle: the bytes of every ndarray argument (also nested in tuples/lists) are '
         'identical before and after the call; a second call on a fresh '
         'instance with identical argument values (same NumPy seed for the randomised OLEQ start) returns byte-identical results. '
         'Explicit in-place operations (normalize, remove_jumps, inplace=True) and random generators are exempt. Non-trivial: '
@@ -77,6 +78,9 @@ class D:
         self.X = arr(u(n, 3))
         self.Y = arr(u(n, 3))
         self.P4 = arr(np.identity(4)*0.5)
+        self.Q4 = arr(np.identity(4)*2e-4)
+        self.P4s = arr(np.identity(4)*0.01)
+        self.R3 = arr(np.identity(3)*0.02)
         self.noises = arr([0.1, 0.2, 0.3])
         self.mref = arr([0.5, 0.1, 0.8])
         self.b0 = arr([0.01, -0.02, 0.005])
@@ -276,6 +280,32 @@ def build_table():
     add('ROLEQ.oleq', lambda d: (ROLEQ(magnetic_ref=30.0).oleq, [d.c('acc'), d.c('mag'), d.c('qu')], {}))
     add('UKF()', lambda d: (UKF, [d.c('GYR'), d.c('ACC')], {'q0': d.c('qu')}))
     add('UKF.update', lambda d: (UKF().update, [d.c('qu'), d.c('gyr'), d.c('acc')], {}))
+    add('UKF(P=)', lambda d: (UKF, [d.c('GYR'), d.c('ACC')], {'P': d.c('P4s'), 'process_noise_covariance': d.c('Q4'),
+                                                               'measurement_noise_covariance': d.c('R3')}))
+
+    # ---- constructor first, method afterwards: the arrays handed to the constructor are still the caller's when the method runs
+    def held(name, cls, ckw, method, margs, seeded=False, cargs=()):
+        def make(d):
+            kw = {k: (d.c(v) if isinstance(v, str) and hasattr(d, v) else v) for k, v in ckw.items()}
+            obj = cls(*[d.c(a) for a in cargs], **kw)
+            return getattr(obj, method), [d.c(a) if isinstance(a, str) else a for a in margs], {}, kw
+        add(name, make, seeded=seeded)
+    held('UKF(P=).update', UKF, {'P': 'P4s', 'process_noise_covariance': 'Q4', 'measurement_noise_covariance': 'R3', 'q0': 'qu'}, 'update', ['qu', 'gyr', 'acc'])
+    held('EKF(P=).update', EKF, {'P': 'P4', 'noises': 'noises', 'magnetic_ref': 'mref', 'q0': 'qu'}, 'update', ['qu', 'gyr', 'acc', 'mag'])
+    held('EKF(P=).update[imu]', EKF, {'P': 'P4', 'noises': 'noises', 'magnetic_ref': 60.0}, 'update', ['qu', 'gyr', 'acc'])
+    held('Mahony(b0=).updateIMU', Mahony, {'b0': 'b0', 'q0': 'qu'}, 'updateIMU', ['qu', 'gyr', 'acc'])
+    held('Mahony(b0=).updateMARG', Mahony, {'b0': 'b0', 'q0': 'qu'}, 'updateMARG', ['qu', 'gyr', 'acc', 'mag'])
+    held('Madgwick(q0=).updateMARG', Madgwick, {'q0': 'qu'}, 'updateMARG', ['qu', 'gyr', 'acc', 'mag'])
+    held('AQUA(q0=).updateMARG', AQUA, {'q0': 'qu', 'adaptive': True}, 'updateMARG', ['qu', 'gyr', 'acc', 'mag'])
+    held('ROLEQ(weights=).update', ROLEQ, {'weights': 'weights', 'magnetic_ref': 'mref', 'q0': 'qu'}, 'update', ['qu', 'gyr', 'acc', 'mag'], seeded=True)
+    held('OLEQ(weights=).estimate', OLEQ, {'weights': 'weights', 'magnetic_ref': 'mref'}, 'estimate', ['acc', 'mag'], seeded=True)
+    held('QUEST(weights=).estimate', QUEST, {'weights': 'weights', 'magnetic_dip': 60.0}, 'estimate', ['acc', 'mag'])
+    held('Davenport(weights=).estimate', Davenport, {'weights': 'weights', 'magnetic_dip': 60.0}, 'estimate', ['acc', 'mag'])
+    held('FLAE(weights=).estimate', FLAE, {'weights': 'weights', 'magnetic_dip': 60.0}, 'estimate', ['acc', 'mag'])
+    held('FQA(mag_ref=).estimate', FQA, {'mag_ref': 'mref'}, 'estimate', ['acc', 'mag'])
+    held('TRIAD(v1=,v2=).estimate', TRIAD, {'v1': 'v', 'v2': 'mref'}, 'estimate', ['acc', 'mag'])
+    held('Fourati(q0=).update', Fourati, {'q0': 'qu', 'magnetic_dip': 60.0}, 'update', ['qu', 'gyr', 'acc', 'mag'])
+    held('Complementary(data).am_estimation', Complementary, {}, 'am_estimation', ['ACC', 'MAG'], cargs=('GYR', 'ACC', 'MAG'))
     return T
 
 
@@ -360,10 +390,13 @@ def evaluate(case, ctx):
     ctx.label('entries>=140' if len(T) >= 140 else f'entries={len(T)}')
     for name, make, repeat, seeded in T:
         d = D(seed, n, view)
-        fn, args, kw = make(d)
+        made = make(d)
+        fn, args, kw = made[:3]
         arrs = []
         _arrays(args, arrs)
         _arrays(kw, arrs, 'kw')
+        if len(made) > 3:
+            _arrays(made[3], arrs, 'ctor_kw')      # arrays the caller gave to the constructor of the object whose method is called
         before = [(p, a.tobytes(), a) for p, a in arrs]
         np.random.seed(seed % (2**31))
         try:
@@ -377,7 +410,7 @@ def evaluate(case, ctx):
         if not repeat:
             continue
         d2 = D(seed, n, view)
-        fn2, args2, kw2 = make(d2)
+        fn2, args2, kw2 = make(d2)[:3]
         np.random.seed(seed % (2**31))
         try:
             r2 = fn2(*args2, **kw2)
